@@ -41,6 +41,13 @@ theorem floatResult_resp (x : Float) {p p' : Pos} (w : String) : Resp (floatResu
 
 macro_rules | `(tactic| resp_lib) => `(tactic| exact floatResult_resp _ _)
 
+/-- the date results do not look at positions: only the position of a raised error differs -/
+theorem dateResM_resp (r : DateRes) {p p' : Pos} : Resp (dateResM r p) (dateResM r p') := by
+  unfold dateResM
+  split <;> resp
+
+macro_rules | `(tactic| resp_lib) => `(tactic| exact dateResM_resp _)
+
 @[obs_simp] theorem numAsFloat_obs (v : RVal) : numAsFloat v = V1 numAsFloat (ers v) := by cases v <;> rfl
 
 theorem listItems_resp {v v' : RVal} (h : ers v = ers v') : Resp (listItems v) (listItems v') := by
